@@ -57,6 +57,15 @@ int main(int argc, char** argv) {
   // gtx/transform2
   add_unit("shearX2D", 10, 9, [](auto const* x, auto* o) { using T = TY(o); stm(o, glm::shearX2D(ldm<3, 3, T>(x), x[9])); });
   add_unit("shearY2D", 10, 9, [](auto const* x, auto* o) { using T = TY(o); stm(o, glm::shearY2D(ldm<3, 3, T>(x), x[9])); });
+  // spherical interpolation of two (unit) vectors: x (3), y (3), a
+  add_unit("vslerp", 7, 3, [](auto const* x, auto* o) { using T = TY(o); stv(o, glm::slerp(ldv<3, T>(x), ldv<3, T>(x + 3), x[6])); });
+  // orientation(Normal, Up): identity when the two coincide within epsilon, else the rotation by acos(N.Up) about Up x N
+  add_unit("orientation", 6, 16, [](auto const* x, auto* o) { using T = TY(o); stm(o, glm::orientation(ldv<3, T>(x), ldv<3, T>(x + 3))); });
+  // projection onto / reflection in the plane (line) with unit normal n:  M · (I − k n nᵀ), k = 1 / 2; key {dimension, k}
+  add_unit(nm("projrefl", {2, 1}), 12, 9, [](auto const* x, auto* o) { using T = TY(o); stm(o, glm::proj2D(ldm<3, 3, T>(x), ldv<3, T>(x + 9))); });
+  add_unit(nm("projrefl", {3, 1}), 19, 16, [](auto const* x, auto* o) { using T = TY(o); stm(o, glm::proj3D(ldm<4, 4, T>(x), ldv<3, T>(x + 16))); });
+  add_unit(nm("projrefl", {2, 2}), 12, 9, [](auto const* x, auto* o) { using T = TY(o); stm(o, glm::reflect2D(ldm<3, 3, T>(x), ldv<3, T>(x + 9))); });
+  add_unit(nm("projrefl", {3, 2}), 19, 16, [](auto const* x, auto* o) { using T = TY(o); stm(o, glm::reflect3D(ldm<4, 4, T>(x), ldv<3, T>(x + 16))); });
   add_unit(nm("shear3D", {0}), 18, 16, [](auto const* x, auto* o) { using T = TY(o); stm(o, glm::shearX3D(ldm<4, 4, T>(x), x[16], x[17])); });
   add_unit(nm("shear3D", {1}), 18, 16, [](auto const* x, auto* o) { using T = TY(o); stm(o, glm::shearY3D(ldm<4, 4, T>(x), x[16], x[17])); });
   add_unit(nm("shear3D", {2}), 18, 16, [](auto const* x, auto* o) { using T = TY(o); stm(o, glm::shearZ3D(ldm<4, 4, T>(x), x[16], x[17])); });
